@@ -130,7 +130,7 @@ HeadsQuick == {<<"none", 0>>, <<"cmt", 2>>}
 HeadsAll == {"none", "cmt"} \X {0, 1, 2}
 HeadsBom == {<<"bom", 0>>, <<"bom", 1>>}
 CoreForms == {"defdoc2", "cls", "clsdoc1", "asg", "asgp3", "str1", "if", "else", "cmt", "init", "sasg"}
-               \cup (IF Deep THEN {"def", "fromp4", "defh2", "tup", "with"} ELSE {})
+               \cup (IF Deep THEN {"fromp4", "with"} ELSE {})
 CleanForms == {"def", "defh2", "defdoc1", "defdoc2", "defdocp3", "defh2doc2", "adef", "def1l", "def1l2", "init",
                "cls", "clsh3", "clsdoc1", "clsdoc2", "cls1l",
                "asg", "asgp3", "asgs2", "asgs2c0", "asgb2", "ann", "ann0", "annp3", "tup", "chain", "semi",
@@ -152,7 +152,7 @@ DomTab == [
   breaks |-> Dom({"def", "cls", "asg", "str1", "cmt", "ff", "cmtls", "asgnel"}, {"none"}, HeadsOne, 3, {"text"}),
   decos  |-> Dom({"def", "cls", "asg"} \cup (IF Deep THEN {"defdoc1", "clsdoc2", "cmt"} ELSE {}),
                  {"none", "d1", "dp", "prop", "d1prop"}, HeadsOne, 3, {"span"}),
-  leak   |-> [Dom({"if", "for", "else", "asg", "str1"} \cup (IF Deep THEN {"cls", "tup", "cmt"} ELSE {}), {"none"},
+  leak   |-> [Dom({"if", "for", "else", "asg", "str1"} \cup (IF Deep THEN {"cls", "tup"} ELSE {}), {"none"},
                   HeadsOne, IF Deep THEN 5 ELSE 4, {"doc"})
                 EXCEPT !.leak = TRUE, !.xcap = 4],
   bom    |-> Dom({"def", "asg", "cls"}, {"none"}, HeadsBom, 2, {"load"}),
